@@ -44,7 +44,7 @@ Definition dView : dec st :=
   let* hn := dList dInfo in
   let* ti := dList (dPair dZ (dList dPos)) in
   let* re := dList (dPair dPos (dList dPos)) in
-  ret (mkSt hn ti re rd fu).
+  ret (mkSt hn ti re rd fu []).
 
 (* ---------- encoders ---------- *)
 Definition eMember (m : member) : list Z :=
@@ -122,6 +122,10 @@ Definition entry (sel : Z) (toks : list Z) : list Z :=
            | Some (hn, a, b, r) => eBool (law_lca hn a b r) | None => bad_input end
   | 105 => match run_dec (let* objs := dList dObj in let* v := dView in ret (objs, v)) toks with
            | Some (objs, v) => eBool (law_ready objs v) | None => bad_input end
+  | 111 => match run_dec (let* e := dEnv in let* objs := dList dObj in let* v := dView in ret (e, objs, v)) toks with
+           | Some (e, objs, v) => eBool (law_view_nosel e objs v) | None => bad_input end
+  | 112 => match run_dec (let* objs := dList dObj in let* a := dView in let* b := dView in ret (objs, a, b)) toks with
+           | Some (objs, a, b) => eBool (law_fresh_nosel objs a b) | None => bad_input end
   | 106 => match run_dec (let* objs := dList dObj in let* v := dView in ret (objs, v)) toks with
            | Some (objs, v) => eBool (law_bad_not_ready objs v) | None => bad_input end
   | 107 => match run_dec dBool toks with
